@@ -869,6 +869,7 @@ func (fr *Frame) applyHints(where, calleeKey string, b *ssa.BasicBlock, st *Stat
 				fr.hintErr = map[int]error{}
 			}
 			fr.hintErr[i] = err
+			fr.hintUnavailable(i, h, b, st, g, res, err) // ext_hintguard.go: obligation / warning instead of a silent skip
 			continue
 		}
 		if err != nil {
